@@ -221,6 +221,8 @@ def _account_def(stats, plan, tr):
         stats.faults_fired['stopsig'] = stats.faults_fired.get('stopsig', 0) + kinds.count('bad')
     if plan['knobs'].get('compiled') is not None:
         stats.probe('compiled_sessions')
+    if plan['knobs'].get('filter'):
+        stats.probe('sessions_with_an_all_accepting_filter')
 
 
 def _account_hist(stats, plan, tr):
